@@ -44,11 +44,11 @@ Print Assumptions C17_example.
    of them re-opens this property even if no sampled case shows a difference.  Rewritten by tools/pin_shapes.py on a tree on which every check passes. *)
 From Connectome Require GlueGroupGen GlueSplitGen.
 Theorem C17_mirrored_functions_are_the_pinned_ones :
-  GlueGroupGen.shape_class_GroupBy = "18ea6a3578454a07" /\
-  GlueGroupGen.shape_to_key = "25665e00459eba8d" /\
-  GlueSplitGen.shape_class_SplitBase = "fa17dad5b6a42226" /\
-  GlueSplitGen.shape_chain_edges = "f009adada3e3a857" /\
-  GlueSplitGen.shape_class_SplitFactory = "39f156adf6b10ab1".
+  GlueGroupGen.shape_class_GroupBy = "18ea6a3578454a07"%string /\
+  GlueGroupGen.shape_to_key = "25665e00459eba8d"%string /\
+  GlueSplitGen.shape_class_SplitBase = "fa17dad5b6a42226"%string /\
+  GlueSplitGen.shape_chain_edges = "f009adada3e3a857"%string /\
+  GlueSplitGen.shape_class_SplitFactory = "39f156adf6b10ab1"%string.
 Proof. repeat split; reflexivity. Qed.
 Print Assumptions C17_mirrored_functions_are_the_pinned_ones.
 (* END PINNED FINGERPRINTS *)
